@@ -10,6 +10,7 @@ VERIF = Path(__file__).resolve().parent.parent
 sys.path.insert(0, str(VERIF))
 
 TECH = {
+    "C08": "abstract interpretation of trim_large_overhangs under the sub-texel overhang assumption (no row removed), constant propagation of the namer for untagged scaffolds, row-mutation scan of the naming code",
     "C02": "affine abstract interpretation of the cut end to end (owner order, keep flags, trim arithmetic) for 2 and 3 owners x both strands: pieces tile the contig; structural order/orientation rules",
     "C01": "who-may-call + must-pass-through (post-dominance over enumerated paths) + typestate on row removal + backward-slice check of the cut QC",
     "C03": "resolved-callee dispatch facts, sibling normal-form comparison of the chunkers, affine ghost-counter invariant for line wrapping, CLI pairing by def-use",
@@ -39,7 +40,6 @@ LEVEL_TEXT = {
 }
 
 NOT_APPLICABLE = {
-    "C08": "identity of output and input for null maps under texel rounding is a statement about runtime lengths versus texel size; every structural ingredient is already a rule of C01/C07/C12/C18 and no further clause is a necessary condition visible in the code's shape",
 }
 
 
